@@ -246,7 +246,24 @@ def check_json(text, fname, prog, ref, obs, show_skipped, model):
     # read back
     try:
         from behave.json_parser import JsonParser
-        back = JsonParser().parse_features(data)
+        reader = JsonParser()
+        back = reader.parse_features(data)
+        # LIBRARY USE: one reader object reads several reports (here: an unrelated report first, then this one twice);
+        # every read-back must be that of a fresh reader
+        other = [{"keyword": "Feature", "name": "Unrelated", "location": "u.feature:1", "status": "passed", "tags": [],
+                  "elements": [{"type": "scenario", "keyword": "Scenario", "name": "U1", "location": "u.feature:2",
+                                "tags": [], "status": "passed", "steps": []}]}]
+        reader2 = JsonParser()
+        reader2.parse_features(other)
+        again = [reader2.parse_features(data), reader2.parse_features(data)]
+        shape = lambda fs: [(f.name, [(s_.name, [(st.name, st.status.name) for st in s_.steps]) for s_ in f.scenarios])
+                            for f in fs]
+        for k_, ag in enumerate(again):
+            if shape(ag) != shape(back):
+                bad("read-back-depends-on-reader-history",
+                    "a JsonParser that has read %d report(s) before reads this one back as %r; a fresh reader gives %r"
+                    % (k_ + 1, [f.name for f in ag], [f.name for f in back]))
+                break
     except Exception as e:
         bad("read-back-raises", "JsonParser.parse_features raised %r" % (e,), exc=type(e).__name__)
         return v
